@@ -409,3 +409,94 @@ func (r *Run) CacheInventory(pkgs []string, table map[string]string, why string)
 		r.viol("K10-cache-inventory", h.Fn, h.What, fmt.Sprintf("%s (%s:%d) can memoise results across calls and has no recorded invalidation mechanism: a value computed from one ledger state (branch, height, view) can be served for another", h.Fn, h.File, h.Line), why, h.File, h.Line)
 	}
 }
+
+// sharedBigIntInLoop lists stores, inside a loop body, of the result of a *big.Int mutator whose
+// receiver was created outside that loop: every iteration then stores the same object (one shared
+// big.Int aliased into all records; the last value wins everywhere).
+func (r *Run) sharedBigIntInLoop(fn *ssa.Function) []lintHit {
+	var hits []lintHit
+	name := r.P.FuncName(fn)
+	for _, hb := range fn.Blocks {
+		if !isLoopHeader(hb) {
+			continue
+		}
+		// natural loop of hb
+		in := map[*ssa.BasicBlock]bool{hb: true}
+		var work []*ssa.BasicBlock
+		for _, p := range hb.Preds {
+			if hb.Dominates(p) {
+				work = append(work, p)
+			}
+		}
+		for len(work) > 0 {
+			x := work[len(work)-1]
+			work = work[:len(work)-1]
+			if in[x] {
+				continue
+			}
+			in[x] = true
+			work = append(work, x.Preds...)
+		}
+		for b := range in {
+			for _, ins := range b.Instrs {
+				var val ssa.Value
+				switch x := ins.(type) {
+				case *ssa.Store:
+					if isLocalAddr(x.Addr) {
+						continue
+					}
+					val = x.Val
+				case *ssa.MapUpdate:
+					val = x.Value
+				default:
+					continue
+				}
+				c, ok := val.(*ssa.Call)
+				if !ok || !in[c.Block()] {
+					continue
+				}
+				f := c.Call.StaticCallee()
+				if f == nil || !strings.HasPrefix(f.String(), "(*math/big.Int).") || len(c.Call.Args) == 0 {
+					continue
+				}
+				recv := c.Call.Args[0]
+				ri, ok := recv.(ssa.Instruction)
+				if !ok {
+					continue
+				}
+				if _, isCall := recv.(*ssa.Call); !isCall {
+					continue // fields/params: not a fresh object created by this function
+				}
+				if in[ri.Block()] {
+					continue
+				}
+				file, line := r.P.Pos(ins.Pos())
+				hits = append(hits, lintHit{Fn: name, What: "shared-big-int:" + r.P.Env(fn).of(val).String(), File: file, Line: line})
+			}
+		}
+	}
+	return hits
+}
+
+// NoSharedBigIntInLoop: no function of the listed packages stores into per-iteration records a
+// *big.Int that was created once outside the loop.
+func (r *Run) NoSharedBigIntInLoop(pkgPrefixes []string, why string) {
+	n := 0
+	for _, name := range r.P.FuncNames() {
+		ok := false
+		for _, p := range pkgPrefixes {
+			if strings.HasPrefix(name, p) {
+				ok = true
+			}
+		}
+		fn := r.P.Fn(name)
+		if !ok || fn.Blocks == nil {
+			continue
+		}
+		n++
+		for _, h := range r.sharedBigIntInLoop(fn) {
+			r.viol("K10-shared-object", h.Fn, h.What, fmt.Sprintf("%s stores, on every iteration of a loop (%s:%d), the result of a big.Int mutator whose receiver was created once before the loop: all stored records share one number and end up with the last value", h.Fn, h.File, h.Line), why, h.File, h.Line)
+		}
+	}
+	r.pass("K10-shared-object", strings.Join(pkgPrefixes, ","), "no big.Int created outside a loop is stored per iteration", fmt.Sprintf("%d functions scanned", n), why, "", 0)
+}
